@@ -181,7 +181,15 @@ class Renderer:
                 dim_on_entity = True
             else:
                 dim_stmt = self.pick("dim-stmt-place", ["after", "before"])
-        ts = self.typespec(d["ts"])
+        ent_len = None
+        tsd = d["ts"]
+        if tsd["base"] == "character" and tsd.get("len") and tsd.get("kind") is None and self.feat.get("char_entity_len", True) \
+                and self.flag("char-entity-len", 1, 6):
+            # FORTRAN 77 spelling: the length follows the entity, `character name*10` / `character name(3)*(*)`
+            ent_len = "*" + (tsd["len"] if tsd["len"].isdigit() else f"({tsd['len']})")
+            ts = self.kw("character")
+        else:
+            ts = self.typespec(d["ts"])
         ents_txt = []
         for e in d["ents"]:
             t = self.idn(e["name"])
@@ -189,6 +197,8 @@ class Renderer:
                 t += e["dim"]
             elif dim_on_entity:
                 t += dimattr
+            if ent_len:
+                t += ent_len
             if e.get("init") is not None and not param_stmt:
                 op = "=>" if e.get("points") else "="
                 sp = " " if self.flag("init-blank", 3, 4) else ""
